@@ -457,6 +457,12 @@ func tableDocCause(base string, data []byte) string {
 							c = append(c, "index-outside")
 							break
 						}
+						// overflowing dimensions: the backing vector has the WRAPPED dimension n, so an index inside the
+						// nominal rows x cols can still lie outside [0, n) (e.g. "2 9223372036854775807" / "0 0 1": n = -2)
+						if k := i*cols + j; oki && okj && !exact && (k < 0 || k >= n) {
+							c = append(c, "index-outside")
+							break
+						}
 					}
 				}
 			}
